@@ -414,3 +414,1454 @@ fn dump(cfg: &Cfg, inst: &Inst) -> String {
     dump_lower(&mut s, cfg, &inst.lower);
     s
 }
+
+// ------------------------------------------------------------------------------------------ operations
+#[derive(Clone, Debug, PartialEq)]
+enum Op {
+    Get { frame: Option<usize>, order: usize, class: u8, local: Option<usize> },
+    Put { frame: usize, order: usize, class: u8, local: Option<usize> },
+    Drain,
+    /// op: Some(true) = online, Some(false) = offline
+    Change { id: Option<usize>, mclass: Option<u8>, mfree: usize, nclass: Option<u8>, op: Option<bool> },
+    Handoff,
+    Recover,
+    LowerGet { row: usize, order: usize },
+    Stats,
+    StatsAt { frame: usize, order: usize },
+    TreeStats,
+    IsFree { frame: usize, order: usize },
+    Validate,
+}
+
+fn opt<T: std::fmt::Display>(v: &Option<T>) -> String {
+    match v {
+        Some(x) => x.to_string(),
+        None => "-".into(),
+    }
+}
+fn popt<T: std::str::FromStr>(s: &str) -> Option<T> {
+    if s == "-" { None } else { Some(s.parse().ok().expect("number")) }
+}
+
+impl Op {
+    fn is_query(&self) -> bool {
+        matches!(self, Op::Stats | Op::StatsAt { .. } | Op::TreeStats | Op::IsFree { .. } | Op::Validate)
+    }
+    fn text(&self) -> String {
+        match self {
+            Op::Get { frame, order, class, local } => format!("get {} {order} {class} {}", opt(frame), opt(local)),
+            Op::Put { frame, order, class, local } => format!("put {frame} {order} {class} {}", opt(local)),
+            Op::Drain => "drain".into(),
+            Op::Change { id, mclass, mfree, nclass, op } => format!(
+                "change {} {} {mfree} {} {}",
+                opt(id),
+                opt(mclass),
+                opt(nclass),
+                match op {
+                    Some(true) => "on",
+                    Some(false) => "off",
+                    None => "-",
+                }
+            ),
+            Op::Handoff => "handoff".into(),
+            Op::Recover => "recover".into(),
+            Op::LowerGet { row, order } => format!("lowerget {row} {order}"),
+            Op::Stats => "stats".into(),
+            Op::StatsAt { frame, order } => format!("stats_at {frame} {order}"),
+            Op::TreeStats => "tree_stats".into(),
+            Op::IsFree { frame, order } => format!("is_free {frame} {order}"),
+            Op::Validate => "validate".into(),
+        }
+    }
+    /// tokens after `OP <i>` / `Q <i>` (anything from `=>` on is ignored)
+    fn parse(t: &[&str]) -> Option<Op> {
+        let t: Vec<&str> = t.iter().take_while(|x| **x != "=>").copied().collect();
+        Some(match *t.first()? {
+            "get" => Op::Get { frame: popt(t[1]), order: t[2].parse().ok()?, class: t[3].parse().ok()?, local: popt(t[4]) },
+            "put" => Op::Put { frame: t[1].parse().ok()?, order: t[2].parse().ok()?, class: t[3].parse().ok()?, local: popt(t[4]) },
+            "drain" => Op::Drain,
+            "change" => Op::Change {
+                id: popt(t[1]),
+                mclass: popt(t[2]),
+                mfree: t[3].parse().ok()?,
+                nclass: popt(t[4]),
+                op: match t[5] {
+                    "on" => Some(true),
+                    "off" => Some(false),
+                    _ => None,
+                },
+            },
+            "handoff" => Op::Handoff,
+            "recover" => Op::Recover,
+            "lowerget" => Op::LowerGet { row: t[1].parse().ok()?, order: t[2].parse().ok()? },
+            "stats" => Op::Stats,
+            "stats_at" => Op::StatsAt { frame: t[1].parse().ok()?, order: t[2].parse().ok()? },
+            "tree_stats" => Op::TreeStats,
+            "is_free" => Op::IsFree { frame: t[1].parse().ok()?, order: t[2].parse().ok()? },
+            "validate" => Op::Validate,
+            _ => return None,
+        })
+    }
+}
+
+fn err_name(e: Error) -> &'static str {
+    match e {
+        Error::Memory => "err mem",
+        Error::Argument => "err arg",
+        Error::Initialization => "err init",
+    }
+}
+
+/// What the harness needs to know about a result
+#[derive(Clone, Debug, PartialEq)]
+enum Out {
+    GetOk(usize, u8),
+    Ok,
+    Err(Error),
+    Panic,
+    Other,
+}
+
+/// Run one call on one allocator; returns (result text, outcome)
+fn call(alloc: &LLFree<'static>, op: &Op) -> (String, Out) {
+    let pan = |m: String| (format!("panic {m}"), Out::Panic);
+    match op {
+        Op::Get { frame, order, class, local } => {
+            match guarded(|| alloc.get(frame.map(FrameId), Request::new(*order, Class(*class), *local))) {
+                Ok(Ok((f, c))) => (format!("ok {} {}", f.0, c.0), Out::GetOk(f.0, c.0)),
+                Ok(Err(e)) => (err_name(e).into(), Out::Err(e)),
+                Err(m) => pan(m),
+            }
+        }
+        Op::Put { frame, order, class, local } => {
+            match guarded(|| alloc.put(FrameId(*frame), Request::new(*order, Class(*class), *local))) {
+                Ok(Ok(())) => ("ok".into(), Out::Ok),
+                Ok(Err(e)) => (err_name(e).into(), Out::Err(e)),
+                Err(m) => pan(m),
+            }
+        }
+        Op::Drain => match guarded(|| alloc.drain()) {
+            Ok(()) => ("ok".into(), Out::Ok),
+            Err(m) => pan(m),
+        },
+        Op::Change { id, mclass, mfree, nclass, op } => {
+            let m = TreeMatch { id: id.map(TreeId), class: mclass.map(Class), free: *mfree };
+            let c = TreeChange {
+                class: nclass.map(Class),
+                operation: op.map(|on| if on { TreeOperation::Online } else { TreeOperation::Offline }),
+            };
+            match guarded(|| alloc.change_tree(m, c)) {
+                Ok(Ok(())) => ("ok".into(), Out::Ok),
+                Ok(Err(e)) => (err_name(e).into(), Out::Err(e)),
+                Err(m) => pan(m),
+            }
+        }
+        Op::LowerGet { row, order } => match guarded(|| llfree::verif::lower_get(alloc, *row, *order, None)) {
+            Ok(Ok(f)) => (format!("ok {f}"), Out::Other),
+            Ok(Err(e)) => (err_name(e).into(), Out::Err(e)),
+            Err(m) => pan(m),
+        },
+        Op::Stats => match guarded(|| alloc.stats()) {
+            Ok(s) => (format!("{} {} {}", s.free_frames, s.free_huge, s.free_trees), Out::Other),
+            Err(m) => pan(m),
+        },
+        Op::StatsAt { frame, order } => match guarded(|| alloc.stats_at(FrameId(*frame), *order)) {
+            Ok(s) => (format!("{} {} {}", s.free_frames, s.free_huge, s.free_trees), Out::Other),
+            Err(m) => pan(m),
+        },
+        Op::TreeStats => match guarded(|| alloc.tree_stats()) {
+            Ok(s) => {
+                let cl: Vec<String> = s.classes.iter().map(|c| format!("{}:{}", c.free_frames, c.alloc_frames)).collect();
+                (format!("{} {} {}", s.free_frames, s.free_trees, cl.join(",")), Out::Other)
+            }
+            Err(m) => pan(m),
+        },
+        Op::IsFree { frame, order } => match guarded(|| alloc.lower.is_free(FrameId(*frame), *order)) {
+            Ok(b) => ((b as u8).to_string(), Out::Other),
+            Err(m) => pan(m),
+        },
+        Op::Validate => match guarded(|| alloc.validate()) {
+            Ok(()) => ("ok".into(), Out::Ok),
+            Err(m) => pan(m),
+        },
+        Op::Handoff | Op::Recover => unreachable!(),
+    }
+}
+
+// ------------------------------------------------------------------------------------------ world
+#[derive(Clone, Copy, Debug, PartialEq)]
+struct Blk {
+    frame: usize,
+    order: usize,
+    class: u8,
+    local: Option<usize>,
+}
+
+/// One history: the allocator(s), what the harness believes is held, and the transcript writer
+struct World<'w> {
+    w: &'w mut dyn Write,
+    cfg: Cfg,
+    a: Option<Inst>,
+    b: Option<Inst>,
+    held: Vec<Blk>,
+    /// harness's belief: frame allocated?
+    view: Vec<bool>,
+    offline: Vec<bool>,
+    last_freed: Option<(usize, usize)>,
+    prev: String,
+    opi: usize,
+    dead: bool,
+    /// write `ST ~` instead of a dump for ops whose index is not a multiple of this
+    st_every: usize,
+    nops: u64,
+}
+
+impl<'w> World<'w> {
+    /// Writes `H`, `CFG`, `INIT`, the first `ST`
+    fn start(w: &'w mut dyn Write, id: u64, suite: &str, seed: u64, cfg: Cfg) -> World<'w> {
+        check_layout(&cfg);
+        writeln!(w, "H {id} suite={suite} seed={seed}").unwrap();
+        writeln!(w, "{}", cfg.line()).unwrap();
+        let init = if cfg.alloc_all { Init::AllocAll } else { Init::FreeAll };
+        let mut world = World {
+            w,
+            held: vec![],
+            view: vec![cfg.alloc_all; cfg.frames],
+            offline: vec![false; cfg.ntrees()],
+            last_freed: None,
+            prev: String::new(),
+            opi: 0,
+            dead: false,
+            a: None,
+            b: None,
+            st_every: 1,
+            nops: 0,
+            cfg,
+        };
+        match Inst::create(&world.cfg, init) {
+            Ok(Ok(inst)) => {
+                writeln!(world.w, "INIT => ok").unwrap();
+                if let Some(g) = inst.guards() {
+                    writeln!(world.w, "CANARY 0 {g}").unwrap();
+                }
+                let d = dump(&world.cfg, &inst);
+                writeln!(world.w, "ST {d}").unwrap();
+                world.prev = d;
+                world.a = Some(inst);
+                if world.cfg.alloc_all {
+                    let whole = world.cfg.frames / HUGE_FRAMES;
+                    let class = world.cfg.default;
+                    for h in 0..whole {
+                        world.held.push(Blk { frame: h * HUGE_FRAMES, order: HUGE_ORDER, class, local: None });
+                    }
+                    for f in whole * HUGE_FRAMES..world.cfg.frames {
+                        world.held.push(Blk { frame: f, order: 0, class, local: None });
+                    }
+                }
+            }
+            Ok(Err(e)) => {
+                writeln!(world.w, "INIT => {}", err_name(e)).unwrap();
+                world.dead = true;
+            }
+            Err(m) => {
+                writeln!(world.w, "INIT => panic {m}").unwrap();
+                world.dead = true;
+            }
+        }
+        world
+    }
+
+    fn finish(self, id: u64) -> u64 {
+        writeln!(self.w, "E {id}").unwrap();
+        self.nops
+    }
+
+    fn ntrees(&self) -> usize {
+        self.cfg.ntrees()
+    }
+
+    fn any_offline(&self) -> bool {
+        self.offline.iter().any(|o| *o)
+    }
+
+    fn is_free_view(&self, frame: usize, order: usize) -> bool {
+        let end = frame.saturating_add(1 << order);
+        end <= self.cfg.frames && self.view[frame..end].iter().all(|a| !*a)
+    }
+    fn is_alloc_view(&self, frame: usize, order: usize) -> bool {
+        let end = frame.saturating_add(1 << order);
+        end <= self.cfg.frames && self.view[frame..end].iter().all(|a| *a)
+    }
+
+    /// Execute one operation on the allocator(s), write its lines, update the harness's beliefs
+    fn exec(&mut self, op: &Op) -> Out {
+        if self.dead {
+            return Out::Panic;
+        }
+        self.opi += 1;
+        self.nops += 1;
+        let i = self.opi;
+        let tag = if op.is_query() { "Q" } else { "OP" };
+        let trees_before: Vec<u32> = {
+            let a = self.a.as_ref().unwrap();
+            (0..self.ntrees()).map(|t| a.tree_word(t)).collect()
+        };
+        let (text, outc) = match op {
+            Op::Handoff => {
+                self.b = None;
+                match self.a.as_ref().unwrap().handoff(&self.cfg) {
+                    Ok(Ok(inst)) => {
+                        self.b = Some(inst);
+                        ("ok".to_string(), Out::Ok)
+                    }
+                    Ok(Err(e)) => (err_name(e).to_string(), Out::Err(e)),
+                    Err(m) => (format!("panic {m}"), Out::Panic),
+                }
+            }
+            Op::Recover => {
+                self.b = None;
+                match self.a.as_ref().unwrap().recover(&self.cfg) {
+                    Ok(Ok(inst)) => {
+                        self.a = Some(inst);
+                        ("ok".to_string(), Out::Ok)
+                    }
+                    Ok(Err(e)) => (err_name(e).to_string(), Out::Err(e)),
+                    Err(m) => (format!("panic {m}"), Out::Panic),
+                }
+            }
+            Op::LowerGet { .. } => {
+                // on a throw-away copy: the upper counters of A stay consistent
+                match self.a.as_ref().unwrap().handoff(&self.cfg) {
+                    Ok(Ok(tmp)) => {
+                        let (t, o) = call(&tmp.alloc, op);
+                        let mut s = String::new();
+                        dump_lower(&mut s, &self.cfg, &tmp.lower);
+                        writeln!(self.w, "OP {i} {} => {t}", op.text()).unwrap();
+                        writeln!(self.w, "LST {s}").unwrap();
+                        if let Some(g) = tmp.guards() {
+                            writeln!(self.w, "CANARY {i} copy-{g}").unwrap();
+                        }
+                        writeln!(self.w, "ST =").unwrap();
+                        if o == Out::Panic {
+                            self.dead = true;
+                        }
+                        return o;
+                    }
+                    Ok(Err(e)) => (err_name(e).to_string(), Out::Err(e)),
+                    Err(m) => (format!("panic {m}"), Out::Panic),
+                }
+            }
+            _ => {
+                let (t, o) = call(&self.a.as_ref().unwrap().alloc, op);
+                if let Some(b) = &self.b {
+                    let (tb, _) = call(&b.alloc, op);
+                    if tb != t {
+                        writeln!(self.w, "HFAIL {i} {} => A [{t}] B [{tb}]", op.text()).unwrap();
+                    }
+                }
+                (t, o)
+            }
+        };
+        writeln!(self.w, "{tag} {i} {} => {text}", op.text()).unwrap();
+        let a = self.a.as_ref().unwrap();
+        if let Some(g) = a.guards() {
+            writeln!(self.w, "CANARY {i} {g}").unwrap();
+        }
+        if let Some(g) = self.b.as_ref().and_then(|b| b.guards()) {
+            writeln!(self.w, "CANARY {i} twin-{g}").unwrap();
+        }
+        // state dump
+        let omit = self.st_every > 1 && !i.is_multiple_of(self.st_every) && outc != Out::Panic && !op.is_query();
+        if omit {
+            writeln!(self.w, "ST ~").unwrap();
+            // the twin is still compared
+            if let Some(b) = &self.b {
+                let (da, db) = (dump(&self.cfg, a), dump(&self.cfg, b));
+                if da != db {
+                    writeln!(self.w, "HFAIL {i} buffers differ after {}: A [{da}] B [{db}]", op.text()).unwrap();
+                }
+            }
+        } else {
+            let d = dump(&self.cfg, a);
+            if let Some(b) = &self.b {
+                let db = dump(&self.cfg, b);
+                if db != d {
+                    writeln!(self.w, "HFAIL {i} buffers differ after {}: A [{d}] B [{db}]", op.text()).unwrap();
+                }
+                if matches!(op, Op::Handoff) {
+                    for q in [Op::Stats, Op::TreeStats] {
+                        let (ra, _) = call(&a.alloc, &q);
+                        let (rb, _) = call(&b.alloc, &q);
+                        if ra != rb {
+                            writeln!(self.w, "HFAIL {i} {} after handoff: A [{ra}] B [{rb}]", q.text()).unwrap();
+                        }
+                    }
+                }
+            }
+            if d == self.prev {
+                if !op.is_query() {
+                    writeln!(self.w, "ST =").unwrap();
+                }
+            } else {
+                writeln!(self.w, "ST {d}").unwrap();
+                self.prev = d;
+            }
+        }
+        // beliefs
+        match (op, &outc) {
+            (Op::Get { order, local, .. }, Out::GetOk(f, c)) => {
+                let end = f.saturating_add(1 << order).min(self.cfg.frames);
+                for x in &mut self.view[(*f).min(end)..end] {
+                    *x = true;
+                }
+                self.held.push(Blk { frame: *f, order: *order, class: *c, local: *local });
+            }
+            (Op::Put { frame, order, .. }, Out::Ok) => self.freed(*frame, *order),
+            (Op::Change { op: Some(on), .. }, Out::Ok) => {
+                let a = self.a.as_ref().unwrap();
+                for t in 0..self.ntrees() {
+                    if a.tree_word(t) != trees_before[t] {
+                        self.offline[t] = !*on;
+                    }
+                }
+            }
+            (Op::Recover, Out::Ok) => self.offline.iter_mut().for_each(|o| *o = false),
+            _ => {}
+        }
+        if outc == Out::Panic {
+            self.dead = true;
+        }
+        outc
+    }
+
+    /// A free of (frame, order) succeeded: update view and held list (splitting a containing block)
+    fn freed(&mut self, frame: usize, order: usize) {
+        let end = (frame + (1 << order)).min(self.cfg.frames);
+        for x in &mut self.view[frame.min(end)..end] {
+            *x = false;
+        }
+        self.last_freed = Some((frame, order));
+        let mut add = vec![];
+        self.held.retain(|b| {
+            let bend = b.frame + (1 << b.order);
+            if b.frame >= frame && bend <= frame + (1 << order) {
+                false // inside the freed region
+            } else if b.frame <= frame && frame + (1 << order) <= bend {
+                // the freed region is a proper part of this block: the buddies stay held
+                let mut cur = b.frame;
+                let mut o = b.order;
+                while o > order {
+                    o -= 1;
+                    let half = 1usize << o;
+                    if frame < cur + half {
+                        add.push(Blk { frame: cur + half, order: o, ..*b });
+                    } else {
+                        add.push(Blk { frame: cur, order: o, ..*b });
+                        cur += half;
+                    }
+                }
+                false
+            } else {
+                true
+            }
+        });
+        self.held.extend(add);
+    }
+}
+
+// ------------------------------------------------------------------------------------------ random choices
+fn pick_order(rng: &mut Rng) -> usize {
+    match rng.below(20) {
+        0..=7 => 0,
+        8..=10 => HUGE_ORDER,
+        11 => 7,
+        12 => 8.min(TREE_ORDER),
+        13 => 6,
+        14 => TREE_ORDER,
+        _ => rng.range(0, TREE_ORDER + 1),
+    }
+}
+
+impl World<'_> {
+    fn pick_class(&self, rng: &mut Rng) -> u8 {
+        if self.cfg.classes.is_empty() { 0 } else { rng.pick(&self.cfg.classes).0 }
+    }
+    /// None, or an in-range slot of `class`
+    fn pick_local(&self, rng: &mut Rng, class: u8) -> Option<usize> {
+        match self.cfg.slots(class) {
+            Some(n) if n > 0 && !rng.chance(1, 4) => Some(rng.range(0, n)),
+            _ => None,
+        }
+    }
+    fn random_aligned(&self, rng: &mut Rng, order: usize) -> usize {
+        let n = self.cfg.frames >> order;
+        if n == 0 { 0 } else { rng.range(0, n) << order }
+    }
+    fn free_block(&self, rng: &mut Rng, order: usize) -> Option<usize> {
+        for _ in 0..12 {
+            let f = self.random_aligned(rng, order);
+            if self.is_free_view(f, order) {
+                return Some(f);
+            }
+        }
+        // linear scan from a random start
+        let n = self.cfg.frames >> order;
+        if n == 0 {
+            return None;
+        }
+        let s = rng.range(0, n);
+        (0..n).map(|k| ((s + k) % n) << order).find(|f| self.is_free_view(*f, order))
+    }
+
+    fn gen_get_any(&self, rng: &mut Rng) -> Op {
+        let order = pick_order(rng);
+        let class = self.pick_class(rng);
+        Op::Get { frame: None, order, class, local: self.pick_local(rng, class) }
+    }
+
+    fn gen_get_at(&self, rng: &mut Rng) -> Op {
+        let order = pick_order(rng);
+        let class = self.pick_class(rng);
+        let local = self.pick_local(rng, class);
+        let frame = match rng.below(10) {
+            0..=3 => self.free_block(rng, order).unwrap_or_else(|| self.random_aligned(rng, order)),
+            4 | 5 if !self.held.is_empty() => {
+                // a held block (or the aligned block around it)
+                let b = *rng.pick(&self.held);
+                return Op::Get { frame: Some(b.frame), order: b.order, class, local };
+            }
+            6 | 7 if !self.held.is_empty() => {
+                // partly free: the block of `order` around a held block
+                let b = *rng.pick(&self.held);
+                (b.frame >> order) << order
+            }
+            8 if self.any_offline() => {
+                let ts: Vec<usize> = (0..self.ntrees()).filter(|t| self.offline[*t]).collect();
+                let t = *rng.pick(&ts);
+                let o = order.min(TREE_ORDER);
+                let per = TREE_FRAMES >> o;
+                t * TREE_FRAMES + (rng.range(0, per) << o)
+            }
+            _ => self.random_aligned(rng, order),
+        };
+        Op::Get { frame: Some(frame), order, class, local }
+    }
+
+    fn gen_put_held(&self, rng: &mut Rng) -> Option<Op> {
+        if self.held.is_empty() {
+            return None;
+        }
+        let b = *rng.pick(&self.held);
+        let class = if rng.chance(4, 5) && self.cfg.slots(b.class).is_some() { b.class } else { self.pick_class(rng) };
+        let local = match rng.below(10) {
+            0..=3 if class == b.class && b.local.is_some_and(|l| self.cfg.slots(class).is_some_and(|n| l < n)) => b.local,
+            0..=6 => self.pick_local(rng, class),
+            _ => None,
+        };
+        Some(Op::Put { frame: b.frame, order: b.order, class, local })
+    }
+
+    fn gen_put_part(&self, rng: &mut Rng) -> Option<Op> {
+        let big: Vec<&Blk> = self.held.iter().filter(|b| b.order > 0).collect();
+        if big.is_empty() {
+            return None;
+        }
+        let b = **rng.pick(&big);
+        let order = match rng.below(4) {
+            0 => b.order - 1,
+            1 => 0,
+            2 if b.order > HUGE_ORDER => HUGE_ORDER,
+            _ => rng.range(0, b.order),
+        };
+        let parts = 1usize << (b.order - order);
+        let frame = b.frame + (rng.range(0, parts) << order);
+        let class = if self.cfg.slots(b.class).is_some() { b.class } else { self.pick_class(rng) };
+        Some(Op::Put { frame, order, class, local: self.pick_local(rng, class) })
+    }
+
+    fn gen_put_union(&self, rng: &mut Rng) -> Option<Op> {
+        if self.held.is_empty() {
+            return None;
+        }
+        for _ in 0..8 {
+            let b = *rng.pick(&self.held);
+            let up = 1 + rng.below(2) as usize;
+            let order = b.order + up;
+            if order > TREE_ORDER {
+                continue;
+            }
+            let frame = (b.frame >> order) << order;
+            if self.is_alloc_view(frame, order) || rng.chance(1, 8) {
+                let class = if self.cfg.slots(b.class).is_some() { b.class } else { self.pick_class(rng) };
+                return Some(Op::Put { frame, order, class, local: self.pick_local(rng, class) });
+            }
+        }
+        None
+    }
+
+    fn gen_put_bad(&self, rng: &mut Rng) -> Op {
+        let class = self.pick_class(rng);
+        let local = self.pick_local(rng, class);
+        match rng.below(3) {
+            0 if self.last_freed.is_some() => {
+                let (frame, order) = self.last_freed.unwrap();
+                Op::Put { frame, order, class, local }
+            }
+            1 if !self.held.is_empty() => {
+                // a held block with a too large order
+                let b = *rng.pick(&self.held);
+                let order = (b.order + 1 + rng.below(2) as usize).min(TREE_ORDER);
+                Op::Put { frame: (b.frame >> order) << order, order, class, local }
+            }
+            _ => {
+                // never allocated / free
+                let order = pick_order(rng);
+                let frame = self.free_block(rng, order).unwrap_or_else(|| self.random_aligned(rng, order));
+                Op::Put { frame, order, class, local }
+            }
+        }
+    }
+
+    fn tree_free_view(&self, t: usize) -> bool {
+        let lo = t * TREE_FRAMES;
+        let hi = ((t + 1) * TREE_FRAMES).min(self.cfg.frames);
+        lo < hi && self.view[lo..hi].iter().all(|a| !*a)
+    }
+
+    fn gen_change(&self, rng: &mut Rng) -> Op {
+        let nt = self.ntrees().max(1);
+        let anyclass = |rng: &mut Rng, w: &Self| if rng.chance(1, 2) { Some(w.pick_class(rng)) } else { None };
+        match rng.below(20) {
+            0..=5 => {
+                // offline an entirely free tree by id
+                let free: Vec<usize> = (0..self.ntrees()).filter(|t| self.tree_free_view(*t) && !self.offline[*t]).collect();
+                let id = if free.is_empty() { rng.range(0, nt) } else { *rng.pick(&free) };
+                Op::Change { id: Some(id), mclass: None, mfree: 0, nclass: None, op: Some(false) }
+            }
+            6..=8 => {
+                // offline by match: an entirely free tree of some class
+                let mfree = if rng.chance(3, 4) { TREE_FRAMES } else { rng.range(0, TREE_FRAMES + 1) };
+                Op::Change { id: None, mclass: anyclass(rng, self), mfree, nclass: None, op: Some(false) }
+            }
+            9 => {
+                // offline any tree (possibly with allocated frames)
+                Op::Change { id: Some(rng.range(0, nt)), mclass: None, mfree: 0, nclass: anyclass(rng, self), op: Some(false) }
+            }
+            10..=13 => {
+                let off: Vec<usize> = (0..self.ntrees()).filter(|t| self.offline[*t]).collect();
+                let id = if off.is_empty() || rng.chance(1, 6) { rng.range(0, nt) } else { *rng.pick(&off) };
+                Op::Change { id: Some(id), mclass: None, mfree: 0, nclass: anyclass(rng, self), op: Some(true) }
+            }
+            14 => Op::Change { id: None, mclass: anyclass(rng, self), mfree: 0, nclass: anyclass(rng, self), op: Some(true) },
+            15 | 16 => {
+                // class change by id
+                let mfree = if rng.chance(1, 2) { 0 } else { rng.range(0, TREE_FRAMES + 1) };
+                Op::Change { id: Some(rng.range(0, nt)), mclass: anyclass(rng, self), mfree, nclass: Some(self.pick_class(rng)), op: None }
+            }
+            17 | 18 => {
+                let mfree = if rng.chance(1, 2) { 0 } else { rng.range(0, TREE_FRAMES + 1) };
+                let mclass = if rng.chance(1, 4) { Some(rng.below(8) as u8) } else { anyclass(rng, self) };
+                Op::Change { id: None, mclass, mfree, nclass: Some(self.pick_class(rng)), op: None }
+            }
+            _ => {
+                // a tree that does not exist
+                let id = *rng.pick(&[self.ntrees(), self.ntrees() + 1, self.ntrees() + 7, 4095]);
+                let op = *rng.pick(&[None, Some(true), Some(false)]);
+                Op::Change { id: Some(id), mclass: None, mfree: 0, nclass: anyclass(rng, self), op }
+            }
+        }
+    }
+
+    /// A call with arguments that `check` must reject
+    fn gen_invalid(&self, rng: &mut Rng) -> Op {
+        let class = self.pick_class(rng);
+        let local = self.pick_local(rng, class);
+        let frames = self.cfg.frames;
+        let is_get = rng.chance(1, 2);
+        let (frame, order, class) = match rng.below(6) {
+            0 => {
+                let order = TREE_ORDER + 1 + rng.below(3) as usize;
+                (0, order, class)
+            }
+            1 => {
+                // misaligned
+                let order = rng.range(1, TREE_ORDER + 1);
+                let base = self.random_aligned(rng, order);
+                (base + rng.range(1, 1 << order), order, class)
+            }
+            2 => {
+                // beyond the range (aligned)
+                let order = pick_order(rng);
+                let first = frames.div_ceil(1 << order) << order; // first aligned frame at or after the end
+                let lastpart = (frames >> order) << order; // aligned block that crosses the end (if frames unaligned)
+                let f = match rng.below(3) {
+                    0 => first,
+                    1 => lastpart,
+                    _ => first + (rng.range(0, 4) << order),
+                };
+                if f + (1 << order) <= frames { (first, order, class) } else { (f, order, class) }
+            }
+            3 => {
+                // near usize::MAX
+                let order = pick_order(rng);
+                let f = match rng.below(4) {
+                    0 => usize::MAX,
+                    1 => usize::MAX - ((1 << order) - 1),
+                    2 => (usize::MAX >> order) << order,
+                    _ => usize::MAX - rng.range(0, 4096),
+                };
+                (f, order, class)
+            }
+            4 => {
+                // unconfigured class below 8
+                let un: Vec<u8> = (0..8u8).filter(|c| self.cfg.slots(*c).is_none()).collect();
+                let order = pick_order(rng);
+                let f = self.random_aligned(rng, order);
+                if un.is_empty() { (f, TREE_ORDER + 1, class) } else { (f, order, *rng.pick(&un)) }
+            }
+            _ => {
+                let order = pick_order(rng);
+                (self.random_aligned(rng, order), order, rng.range(8, 256) as u8)
+            }
+        };
+        if is_get {
+            let frame = if rng.chance(1, 5) && order > TREE_ORDER { None } else { Some(frame) };
+            Op::Get { frame, order, class, local: if class >= 8 { None } else { local } }
+        } else {
+            Op::Put { frame, order, class, local: if class >= 8 { None } else { local } }
+        }
+    }
+
+    fn queries(&mut self, rng: &mut Rng, full: bool) {
+        self.exec(&Op::Stats);
+        self.exec(&Op::TreeStats);
+        if self.cfg.frames == 0 {
+            return;
+        }
+        let n = if full { 3 } else { 1 };
+        for _ in 0..n {
+            let f = rng.range(0, self.cfg.frames);
+            let order = *rng.pick(&[0, 0, HUGE_ORDER, TREE_ORDER, 3]);
+            self.exec(&Op::StatsAt { frame: f, order });
+            let o = pick_order(rng);
+            if (1usize << o) <= self.cfg.frames {
+                let fr = self.random_aligned(rng, o);
+                if fr + (1 << o) <= self.cfg.frames {
+                    self.exec(&Op::IsFree { frame: fr, order: o });
+                }
+            }
+        }
+        if !self.any_offline() && (full || rng.chance(1, 2)) {
+            self.exec(&Op::Validate);
+        }
+    }
+}
+
+// ------------------------------------------------------------------------------------------ configurations
+fn pick_frames(rng: &mut Rng, max_trees: usize) -> usize {
+    let tiny = [1usize, 63, 64, 65, 511, 512, 513];
+    match rng.below(10) {
+        0 => *rng.pick(&tiny),
+        1 | 2 => rng.range(1, max_trees + 1) * TREE_FRAMES,
+        _ => {
+            let k = rng.range(0, max_trees);
+            let r = match rng.below(8) {
+                0 => *rng.pick(&tiny) % TREE_FRAMES,
+                1 => rng.range(0, TREE_HUGE) * HUGE_FRAMES,
+                2 => (rng.range(0, TREE_HUGE) * HUGE_FRAMES + 1) % TREE_FRAMES,
+                3 => (rng.range(1, TREE_HUGE + 1) * HUGE_FRAMES - 1) % TREE_FRAMES,
+                4 => (rng.range(0, TREE_FRAMES / 64) * 64 + rng.range(0, 3)) % TREE_FRAMES,
+                _ => rng.range(0, TREE_FRAMES),
+            };
+            (k * TREE_FRAMES + r).max(1)
+        }
+    }
+}
+
+fn pick_classing(rng: &mut Rng, allow_custom: bool) -> (Pol, Vec<(u8, usize)>, u8) {
+    let n = rng.range(1, 4);
+    match rng.below(if allow_custom { 10 } else { 8 }) {
+        0..=2 => (Pol::Simple, vec![(0, n), (1, n)], 1),
+        3 | 4 => (Pol::Movable, vec![(0, n), (1, n), (2, n)], 2),
+        5 | 6 => (Pol::Zeroed, vec![(0, n), (1, n), (2, n)], 1),
+        7 => match rng.below(4) {
+            0 => (Pol::Zeroslot, vec![(0, 0), (1, n)], 1),
+            1 => (Pol::Zeroslot, vec![(0, 0), (1, 0)], 1),
+            _ => (Pol::Zeroslot, vec![(0, n), (1, 0)], 1),
+        },
+        _ => {
+            let cl = vec![(0, rng.range(1, 4)), (1, rng.range(1, 4)), (2, rng.range(1, 4))];
+            (Pol::Custom, cl, rng.below(3) as u8)
+        }
+    }
+}
+
+fn pick_cfg(rng: &mut Rng, max_trees: usize, allow_custom: bool) -> Cfg {
+    let (pol, classes, default) = pick_classing(rng, allow_custom);
+    Cfg { frames: pick_frames(rng, max_trees), alloc_all: rng.chance(1, 4), default, pol, classes }
+}
+
+// ------------------------------------------------------------------------------------------ suites
+struct Weights {
+    get_any: u64,
+    get_at: u64,
+    put_held: u64,
+    put_part: u64,
+    put_union: u64,
+    put_bad: u64,
+    drain: u64,
+    change: u64,
+    invalid: u64,
+    handoff: u64,
+    recover: u64,
+}
+const W_RANDOM: Weights = Weights {
+    get_any: 30, get_at: 12, put_held: 28, put_part: 4, put_union: 2, put_bad: 3, drain: 3, change: 5, invalid: 3, handoff: 0, recover: 0,
+};
+
+impl World<'_> {
+    /// One weighted random operation; `pressure` > 0 favours allocations, < 0 frees
+    fn random_op(&mut self, rng: &mut Rng, w: &Weights, pressure: i32) -> Op {
+        let (ga, ph) = match pressure {
+            p if p > 0 => (w.get_any * 2, w.put_held / 3),
+            p if p < 0 => (w.get_any / 3, w.put_held * 2),
+            _ => (w.get_any, w.put_held),
+        };
+        let table = [ga, w.get_at, ph, w.put_part, w.put_union, w.put_bad, w.drain, w.change, w.invalid, w.handoff, w.recover];
+        let total: u64 = table.iter().sum();
+        let mut x = rng.below(total);
+        let mut k = 0;
+        while x >= table[k] {
+            x -= table[k];
+            k += 1;
+        }
+        match k {
+            0 => self.gen_get_any(rng),
+            1 => self.gen_get_at(rng),
+            2 => self.gen_put_held(rng).unwrap_or_else(|| self.gen_get_any(rng)),
+            3 => self.gen_put_part(rng).unwrap_or_else(|| self.gen_get_any(rng)),
+            4 => self.gen_put_union(rng).unwrap_or_else(|| self.gen_put_bad(rng)),
+            5 => self.gen_put_bad(rng),
+            6 => Op::Drain,
+            7 => self.gen_change(rng),
+            8 => self.gen_invalid(rng),
+            9 => Op::Handoff,
+            _ => Op::Recover,
+        }
+    }
+
+    /// Allocate with a fixed request until an error (or `budget` calls); returns the number of calls
+    fn exhaust(&mut self, order: usize, class: u8, local: Option<usize>, budget: usize) -> usize {
+        let mut n = 0;
+        while n < budget && !self.dead {
+            n += 1;
+            match self.exec(&Op::Get { frame: None, order, class, local }) {
+                Out::GetOk(..) => {}
+                _ => break,
+            }
+        }
+        n
+    }
+
+    /// Random mixed phase of `ops` operations with queries every `qk` operations
+    fn mixed(&mut self, rng: &mut Rng, w: &Weights, ops: usize, qk: usize) {
+        let mut pressure = 0i32;
+        for k in 0..ops {
+            if self.dead {
+                return;
+            }
+            if k % 32 == 0 {
+                pressure = rng.below(3) as i32 - 1;
+            }
+            let op = self.random_op(rng, w, pressure);
+            self.exec(&op);
+            if qk > 0 && k % qk == qk - 1 {
+                self.queries(rng, false);
+            }
+        }
+    }
+}
+
+fn suite_random(w: &mut dyn Write, rng: &mut Rng, id: u64, seed: u64, ops: usize, name: &str, weights: &Weights, max_trees: usize) -> u64 {
+    let cfg = pick_cfg(rng, max_trees, name == "random");
+    let mut wd = World::start(w, id, name, seed, cfg);
+    let qk = 1 + rng.below(5) as usize;
+    if !wd.dead {
+        wd.queries(rng, true);
+    }
+    let mut left = ops;
+    // optional exhaustion phase at an order that fits the budget
+    if !wd.dead && rng.chance(1, 3) && wd.cfg.frames > 0 {
+        let mut order = pick_order(rng);
+        while order < TREE_ORDER && (wd.cfg.frames >> order) > ops / 2 {
+            order += 1;
+        }
+        let class = wd.pick_class(rng);
+        let local = wd.pick_local(rng, class);
+        left -= wd.exhaust(order, class, local, ops / 2).min(left);
+        if !wd.dead {
+            wd.queries(rng, false);
+            // free a random subset
+            let k = wd.held.len() / 2;
+            for _ in 0..k.min(left / 2) {
+                if let Some(op) = wd.gen_put_held(rng) {
+                    wd.exec(&op);
+                    left = left.saturating_sub(1);
+                }
+            }
+        }
+    }
+    wd.mixed(rng, weights, left, qk);
+    if !wd.dead {
+        wd.queries(rng, true);
+    }
+    wd.finish(id)
+}
+
+// ---- bounded-exhaustive
+const NSYM: usize = 14;
+
+fn exhaustive_cfg(k: usize) -> Cfg {
+    match k % 4 {
+        0 => Cfg { frames: TREE_FRAMES + HUGE_FRAMES + 65, alloc_all: false, default: 1, pol: Pol::Simple, classes: vec![(0, 1), (1, 1)] },
+        1 => Cfg { frames: 2 * TREE_FRAMES, alloc_all: false, default: 1, pol: Pol::Zeroed, classes: vec![(0, 1), (1, 1), (2, 1)] },
+        2 => Cfg { frames: TREE_FRAMES + 70, alloc_all: true, default: 2, pol: Pol::Movable, classes: vec![(0, 1), (1, 1), (2, 1)] },
+        _ => Cfg { frames: 3 * TREE_FRAMES, alloc_all: false, default: 1, pol: Pol::Zeroslot, classes: vec![(0, 1), (1, 0)] },
+    }
+}
+
+impl World<'_> {
+    /// Resolve an abstract symbol against the current held list (deterministically)
+    fn symbol(&self, s: usize) -> Op {
+        let huge_class = self.cfg.classes.last().map(|c| c.0).unwrap_or(0);
+        let c0 = self.cfg.classes.first().map(|c| c.0).unwrap_or(0);
+        let slot = |c: u8| if self.cfg.slots(c).is_some_and(|n| n > 0) { Some(0) } else { None };
+        let never = Op::Put { frame: 0, order: 0, class: c0, local: None };
+        match s {
+            0 => Op::Get { frame: None, order: 0, class: c0, local: slot(c0) },
+            1 => Op::Get { frame: None, order: 7.min(TREE_ORDER), class: c0, local: slot(c0) },
+            2 => Op::Get { frame: None, order: HUGE_ORDER, class: huge_class, local: slot(huge_class) },
+            3 => Op::Get { frame: None, order: TREE_ORDER, class: huge_class, local: slot(huge_class) },
+            4 => {
+                // the last free base frame
+                let f = (0..self.cfg.frames).rev().find(|f| !self.view[*f]).unwrap_or(0);
+                Op::Get { frame: Some(f), order: 0, class: c0, local: None }
+            }
+            5 => match self.held.first() {
+                Some(b) => Op::Get { frame: Some(b.frame), order: b.order, class: c0, local: slot(c0) },
+                None => Op::Get { frame: Some(0), order: HUGE_ORDER.min(TREE_ORDER), class: huge_class, local: None },
+            },
+            6 => match self.held.first() {
+                Some(b) => Op::Put { frame: b.frame, order: b.order, class: b.class, local: slot(b.class) },
+                None => never,
+            },
+            7 => match self.held.last() {
+                Some(b) => Op::Put { frame: b.frame, order: b.order, class: b.class, local: None },
+                None => never,
+            },
+            8 => match self.held.iter().find(|b| b.order > 0) {
+                // upper half of the first larger block
+                Some(b) => Op::Put { frame: b.frame + (1 << (b.order - 1)), order: b.order - 1, class: b.class, local: None },
+                None => never,
+            },
+            9 => match self.last_freed {
+                Some((frame, order)) => Op::Put { frame, order, class: c0, local: slot(c0) },
+                None => never,
+            },
+            10 => Op::Drain,
+            11 => Op::Change { id: Some(0), mclass: None, mfree: 0, nclass: None, op: Some(false) },
+            12 => Op::Change { id: Some(0), mclass: None, mfree: 0, nclass: None, op: Some(true) },
+            _ => Op::Put { frame: 1, order: 1, class: c0, local: None },
+        }
+    }
+}
+
+/// All sequences of length `depth` (every shorter one is a prefix) over the abstract alphabet
+fn suite_exhaustive(w: &mut dyn Write, depth: usize, configs: usize, shard: (u64, u64), seed: u64) -> (u64, u64) {
+    let (mut hist, mut nops) = (0u64, 0u64);
+    let total = (NSYM as u64).pow(depth as u32);
+    let mut id = 0u64;
+    for k in 0..configs {
+        for code in 0..total {
+            id += 1;
+            if id % shard.1 != shard.0 {
+                continue;
+            }
+            let mut wd = World::start(w, id, "exhaustive", seed, exhaustive_cfg(k));
+            let mut c = code;
+            for _ in 0..depth {
+                let op = wd.symbol((c % NSYM as u64) as usize);
+                c /= NSYM as u64;
+                if wd.dead {
+                    break;
+                }
+                wd.exec(&op);
+                wd.exec(&Op::Stats);
+                wd.exec(&Op::TreeStats);
+            }
+            if !wd.dead && !wd.any_offline() {
+                wd.exec(&Op::Validate);
+            }
+            hist += 1;
+            nops += wd.finish(id);
+        }
+    }
+    (hist, nops)
+}
+
+// ---- init (C06)
+fn init_counts(from: usize, to: usize, step: usize) -> Vec<usize> {
+    let mut v: Vec<usize> = (from..=to).step_by(step.max(1)).collect();
+    for unit in [64, HUGE_FRAMES, TREE_FRAMES] {
+        let mut m = (from / unit) * unit;
+        while m <= to + unit {
+            for d in -3i64..=3 {
+                let x = m as i64 + d;
+                if x >= from as i64 && x <= to as i64 {
+                    v.push(x as usize);
+                }
+            }
+            m += unit;
+        }
+    }
+    v.sort_unstable();
+    v.dedup();
+    v
+}
+
+fn suite_init_one(w: &mut dyn Write, rng: &mut Rng, id: u64, seed: u64, frames: usize, alloc_all: bool) -> u64 {
+    let (pol, classes, default) = pick_classing(rng, false);
+    let cfg = Cfg { frames, alloc_all, default, pol, classes };
+    let mut wd = World::start(w, id, "init", seed, cfg);
+    if wd.dead {
+        return wd.finish(id);
+    }
+    wd.st_every = if frames <= 600 { 1 } else { 61 };
+    wd.queries(rng, true);
+    let class = wd.pick_class(rng);
+    let local = wd.pick_local(rng, class);
+    if !alloc_all {
+        // exactly `frames` base allocations succeed
+        wd.exhaust(0, class, local, frames + 2);
+        wd.queries(rng, false);
+        // free all of them (random order of the held list chunks)
+        let mut held = wd.held.clone();
+        if rng.chance(1, 2) {
+            held.reverse();
+        }
+        for b in held {
+            let l = if rng.chance(1, 2) { local } else { None };
+            wd.exec(&Op::Put { frame: b.frame, order: b.order, class: b.class, local: l });
+        }
+    } else {
+        // every whole huge frame once at HUGE_ORDER, every other frame once at order 0; a second time fails
+        let held = wd.held.clone();
+        for (k, b) in held.iter().enumerate() {
+            let l = if rng.chance(1, 2) { local } else { None };
+            wd.exec(&Op::Put { frame: b.frame, order: b.order, class, local: l });
+            if k % 7 == 0 || b.order > 0 {
+                wd.exec(&Op::Put { frame: b.frame, order: b.order, class, local: l });
+            }
+        }
+        wd.exec(&Op::Drain);
+    }
+    wd.st_every = 1;
+    if !wd.dead {
+        wd.exec(&Op::Drain);
+        wd.queries(rng, true);
+    }
+    wd.finish(id)
+}
+
+// ---- pattern (C12)
+fn suite_pattern_one(w: &mut dyn Write, rng: &mut Rng, id: u64, seed: u64) -> u64 {
+    // one or two trees, possibly a partial last one; the pattern goes into a random tree
+    let frames = match rng.below(4) {
+        0 => TREE_FRAMES,
+        1 => TREE_FRAMES + rng.range(1, TREE_FRAMES),
+        2 => rng.range(HUGE_FRAMES.min(TREE_FRAMES - 1), TREE_FRAMES) + 1,
+        _ => 2 * TREE_FRAMES,
+    };
+    let cfg = Cfg { frames, alloc_all: false, default: 1, pol: Pol::Simple, classes: vec![(0, 1), (1, 1)] };
+    let mut wd = World::start(w, id, "pattern", seed, cfg);
+    if wd.dead {
+        return wd.finish(id);
+    }
+    let nt = wd.ntrees();
+    let tree = rng.range(0, nt);
+    let lo = tree * TREE_FRAMES;
+    let hi = ((tree + 1) * TREE_FRAMES).min(frames);
+    // structured pattern: each aligned sub-block of granularity 2^gran is empty / full / single bit / random
+    let gran = rng.range(0, TREE_ORDER + 1);
+    wd.st_every = 97;
+    let density = rng.below(4);
+    let mut f = lo;
+    while f < hi && !wd.dead {
+        let end = (f + (1 << gran)).min(hi);
+        let kind = match density {
+            0 => rng.below(4),
+            1 => *rng.pick(&[0, 0, 0, 1, 2, 3]),
+            2 => *rng.pick(&[1, 1, 1, 0, 2, 3]),
+            _ => *rng.pick(&[0, 1, 3, 3]),
+        };
+        match kind {
+            0 => {}
+            1 => {
+                // full: allocate the block with the largest aligned pieces
+                let mut x = f;
+                while x < end {
+                    let mut o = 0;
+                    while o < TREE_ORDER && x.is_multiple_of(1 << (o + 1)) && x + (1 << (o + 1)) <= end {
+                        o += 1;
+                    }
+                    wd.exec(&Op::Get { frame: Some(x), order: o, class: (o >= HUGE_ORDER) as u8, local: None });
+                    x += 1 << o;
+                }
+            }
+            2 => {
+                let x = rng.range(f, end);
+                wd.exec(&Op::Get { frame: Some(x), order: 0, class: 0, local: None });
+            }
+            _ => {
+                let sub = rng.range(0, gran.min(6) + 1);
+                let mut x = f;
+                while x < end {
+                    if rng.chance(1, 2) && x + (1 << sub) <= end {
+                        wd.exec(&Op::Get { frame: Some(x), order: sub, class: 0, local: None });
+                    }
+                    x += 1 << sub;
+                }
+            }
+        }
+        f = end;
+    }
+    wd.st_every = 1;
+    if wd.dead {
+        return wd.finish(id);
+    }
+    // make the final state visible (a drain changes nothing in the lower allocator)
+    wd.exec(&Op::Drain);
+    wd.exec(&Op::Stats);
+    let rows_in_tree = (hi - lo).div_ceil(64);
+    let row0 = lo / 64;
+    let mut hints: Vec<usize> = if rows_in_tree <= 32 {
+        (0..rows_in_tree).collect()
+    } else {
+        let mut v = vec![0, 1, ROWS - 1, ROWS, ROWS + 1, rows_in_tree - 1];
+        for _ in 0..10 {
+            v.push(rng.range(0, rows_in_tree));
+        }
+        v.retain(|r| *r < rows_in_tree);
+        v.sort_unstable();
+        v.dedup();
+        v
+    };
+    if hints.is_empty() {
+        hints.push(0);
+    }
+    for order in 0..=TREE_ORDER {
+        for h in &hints {
+            if wd.dead {
+                break;
+            }
+            wd.exec(&Op::LowerGet { row: row0 + h, order });
+        }
+    }
+    wd.finish(id)
+}
+
+// ---- exhaust (C11)
+fn suite_exhaust_one(w: &mut dyn Write, rng: &mut Rng, id: u64, seed: u64) -> u64 {
+    let trees = rng.range(2, 5);
+    let frames = if rng.chance(1, 3) { trees * TREE_FRAMES } else { (trees - 1) * TREE_FRAMES + rng.range(1, TREE_FRAMES + 1) };
+    let cfg = Cfg { frames, alloc_all: false, default: 0, pol: Pol::Simple, classes: vec![(0, 1)] };
+    let mut wd = World::start(w, id, "exhaust", seed, cfg);
+    if wd.dead {
+        return wd.finish(id);
+    }
+    wd.st_every = 53;
+    wd.exhaust(0, 0, Some(0), frames + 2);
+    wd.st_every = 1;
+    wd.exec(&Op::Stats);
+    for _round in 0..3 {
+        if wd.dead || wd.held.is_empty() {
+            break;
+        }
+        // the tree currently reserved by slot 0
+        let a = wd.a.as_ref().unwrap();
+        let slot = a.local.u64_at(0);
+        let res_tree = if slot >> 63 == 1 { Some(((slot & ((1 << 44) - 1)) as usize * 64) / TREE_FRAMES) } else { None };
+        let n = match rng.below(4) {
+            0 => 1,
+            1 => rng.range(1, 4),
+            _ => rng.range(1, 200),
+        };
+        for k in 0..n {
+            if wd.held.is_empty() {
+                break;
+            }
+            // boundary case: exactly one frame freed without a slot into the slot's own reserved tree
+            let cand: Vec<usize> = match (k, res_tree) {
+                (0, Some(t)) if rng.chance(2, 3) => (0..wd.held.len()).filter(|i| wd.held[*i].frame / TREE_FRAMES == t).collect(),
+                _ => vec![],
+            };
+            let idx = if cand.is_empty() { rng.range(0, wd.held.len()) } else { *rng.pick(&cand) };
+            let b = wd.held[idx];
+            let local = if !cand.is_empty() || rng.chance(1, 2) { None } else { Some(0) };
+            wd.exec(&Op::Put { frame: b.frame, order: 0, class: 0, local });
+        }
+        wd.exec(&Op::Stats);
+        wd.exec(&Op::TreeStats);
+        // allocate until the allocator reports out of memory
+        wd.exhaust(0, 0, Some(0), n + 3);
+        wd.exec(&Op::Stats);
+    }
+    if !wd.dead {
+        wd.exec(&Op::Validate);
+    }
+    wd.finish(id)
+}
+
+// ---- offline (C15)
+fn suite_offline_one(w: &mut dyn Write, rng: &mut Rng, id: u64, seed: u64, ops: usize) -> u64 {
+    let cfg = pick_cfg(rng, 4, false);
+    let mut wd = World::start(w, id, "offline", seed, cfg);
+    let weights = Weights { get_any: 30, get_at: 16, put_held: 22, put_part: 2, put_union: 1, put_bad: 1, drain: 5, change: 22, invalid: 0, handoff: 0, recover: 0 };
+    let mut left = ops;
+    while left > 0 && !wd.dead {
+        let n = left.min(24);
+        wd.mixed(rng, &weights, n, 3);
+        left -= n;
+        if wd.dead {
+            break;
+        }
+        // probe: offline a free tree, try to allocate from it, bring it online, allocate all of it
+        let free: Vec<usize> = (0..wd.ntrees()).filter(|t| wd.tree_free_view(*t) && !wd.offline[*t]).collect();
+        if !free.is_empty() && rng.chance(1, 2) {
+            let t = *rng.pick(&free);
+            wd.exec(&Op::Drain);
+            let nclass = if rng.chance(1, 2) { Some(wd.pick_class(rng)) } else { None };
+            if wd.exec(&Op::Change { id: Some(t), mclass: None, mfree: 0, nclass: None, op: Some(false) }) == Out::Ok {
+                wd.exec(&Op::TreeStats);
+                wd.exec(&Op::Stats);
+                let c = wd.pick_class(rng);
+                let l = wd.pick_local(rng, c);
+                wd.exec(&Op::Get { frame: Some(t * TREE_FRAMES), order: 0, class: c, local: l });
+                for _ in 0..3 {
+                    let op = wd.gen_get_any(rng);
+                    wd.exec(&op);
+                }
+                wd.exec(&Op::Change { id: Some(t), mclass: None, mfree: 0, nclass, op: Some(true) });
+                wd.exec(&Op::TreeStats);
+                // every frame of it is allocatable again
+                let hi = ((t + 1) * TREE_FRAMES).min(wd.cfg.frames);
+                let mut f = t * TREE_FRAMES;
+                let c = nclass.unwrap_or(c);
+                while f < hi && !wd.dead {
+                    let mut o = 0;
+                    while o < TREE_ORDER && f.is_multiple_of(1 << (o + 1)) && f + (1 << (o + 1)) <= hi {
+                        o += 1;
+                    }
+                    wd.exec(&Op::Get { frame: Some(f), order: o, class: c, local: None });
+                    f += 1 << o;
+                }
+            }
+        }
+    }
+    if !wd.dead {
+        wd.queries(rng, true);
+    }
+    wd.finish(id)
+}
+
+// ---- args (C08)
+fn suite_args_one(w: &mut dyn Write, rng: &mut Rng, id: u64, seed: u64) -> u64 {
+    let cfg = pick_cfg(rng, 3, true);
+    let mut wd = World::start(w, id, "args", seed, cfg);
+    if wd.dead {
+        return wd.finish(id);
+    }
+    // some state first
+    wd.mixed(rng, &W_RANDOM, 20, 0);
+    let frames = wd.cfg.frames;
+    let classes: Vec<u8> = if id % 8 == 0 { (0..=255u8).collect() } else { (0..10u8).chain([15, 16, 127, 128, 255]).collect() };
+    let ok_class = wd.pick_class(rng);
+    let mut calls: Vec<(usize, usize, u8)> = vec![];
+    for order in 0..=TREE_ORDER + 3 {
+        let sz = 1usize << order;
+        // frames at and around every boundary
+        let mut fs = vec![0, sz, frames.saturating_sub(sz), frames.saturating_sub(1), frames, frames + 1, (frames >> order) << order,
+            frames.div_ceil(sz) * sz, usize::MAX, usize::MAX - (sz - 1), usize::MAX - sz, (usize::MAX >> order) << order, usize::MAX / 2 + 1];
+        for k in 0..order.min(12) {
+            fs.push(((frames / 2) >> order << order) + (1 << k)); // misaligned by 2^k
+        }
+        if order > 0 {
+            fs.push(((frames / 2) >> order << order) + sz - 1);
+            fs.push(rng.range(1, sz));
+        }
+        for f in fs {
+            calls.push((f, order, ok_class));
+        }
+    }
+    for order in [64usize, 65, 200, usize::MAX] {
+        calls.push((0, order, ok_class));
+    }
+    for c in classes {
+        let o = pick_order(rng);
+        calls.push((wd.random_aligned(rng, o), o, c));
+    }
+    for (f, o, c) in calls {
+        if wd.dead {
+            break;
+        }
+        let local = if c < 8 { wd.pick_local(rng, c) } else { None };
+        let both = rng.below(3);
+        if both != 1 {
+            let frame = if rng.chance(1, 6) { None } else { Some(f) };
+            wd.exec(&Op::Get { frame, order: o, class: c, local });
+        }
+        if both != 0 && !wd.dead {
+            wd.exec(&Op::Put { frame: f, order: o, class: c, local });
+        }
+    }
+    if !wd.dead {
+        wd.queries(rng, true);
+    }
+    // a slot index beyond the class's slots (not a valid parameter; may panic: ends the history)
+    if !wd.dead && rng.chance(1, 3) {
+        let c = wd.pick_class(rng);
+        let n = wd.cfg.slots(c).unwrap_or(0);
+        let local = Some(n + rng.range(0, 3));
+        let op = if rng.chance(1, 2) || wd.held.is_empty() {
+            Op::Get { frame: None, order: 0, class: c, local }
+        } else {
+            let b = wd.held[0];
+            Op::Put { frame: b.frame, order: b.order, class: c, local }
+        };
+        wd.exec(&op);
+    }
+    wd.finish(id)
+}
+
+// ---- replay of an explicit operation list
+fn suite_replay(w: &mut dyn Write, file: &str) -> (u64, u64) {
+    let text = std::fs::read_to_string(file).expect("read --file");
+    let mut wd: Option<World> = None;
+    let mut id = 1;
+    let mut ops: Vec<Op> = vec![];
+    let mut cfg: Option<Cfg> = None;
+    let mut suite = "replay".to_string();
+    for line in text.lines() {
+        let t: Vec<&str> = line.split_whitespace().collect();
+        match t.first().copied() {
+            Some("H") => {
+                id = t[1].parse().unwrap_or(1);
+                if let Some(s) = t.iter().find_map(|x| x.strip_prefix("suite=")) {
+                    suite = s.to_string();
+                }
+            }
+            Some("CFG") => cfg = Some(Cfg::parse(line)),
+            Some("OP") | Some("Q") => {
+                if let Some(op) = Op::parse(&t[2..]) {
+                    ops.push(op)
+                }
+            }
+            _ => {}
+        }
+    }
+    let cfg = cfg.expect("replay file without CFG line");
+    let _ = &mut wd;
+    let mut world = World::start(w, id, &suite, 0, cfg);
+    for op in &ops {
+        if world.dead {
+            break;
+        }
+        world.exec(op);
+    }
+    let n = world.finish(id);
+    (1, n)
+}
+
+// ------------------------------------------------------------------------------------------ main
+fn main() {
+    install_hook();
+    let args = Args::parse();
+    let seed = args.num("seed", 1);
+    let suite = args.get("suite").unwrap_or("random").to_string();
+    let histories = args.num("histories", 10);
+    let ops = args.num("ops", 100) as usize;
+    let depth = args.num("depth", 4) as usize;
+    let configs = args.num("configs", 2) as usize;
+    let shard = {
+        let s = args.get("shard").unwrap_or("0/1");
+        let (a, b) = s.split_once('/').expect("--shard i/n");
+        (a.parse::<u64>().unwrap(), b.parse::<u64>().unwrap().max(1))
+    };
+    let mut w = out(args.get("out"));
+    writeln!(w, "GEOM huge_order={HUGE_ORDER} tree_huge={TREE_HUGE}").unwrap();
+    let mut rng = Rng::new(seed.wrapping_mul(0x9e37_79b9).wrapping_add(shard.0));
+    let (mut nh, mut nops) = (0u64, 0u64);
+    // history ids: unique across shards
+    let idof = |k: u64| k * shard.1 + shard.0 + 1;
+    match suite.as_str() {
+        "replay" => {
+            let (h, n) = suite_replay(&mut *w, args.get("file").expect("--file"));
+            nh += h;
+            nops += n;
+        }
+        "exhaustive" => {
+            let (h, n) = suite_exhaustive(&mut *w, depth, configs, shard, seed);
+            nh += h;
+            nops += n;
+        }
+        "init" => {
+            let from = args.num("from", 0) as usize;
+            let to = args.num("to", 2 * TREE_FRAMES as u64 + 70) as usize;
+            let step = args.num("step", 97) as usize;
+            let mut counts = init_counts(from, to, step);
+            if from == 0 && !counts.contains(&0) {
+                counts.insert(0, 0);
+            }
+            let mut id = 0;
+            for frames in counts {
+                for alloc_all in [false, true] {
+                    id += 1;
+                    if id % shard.1 != shard.0 {
+                        continue;
+                    }
+                    nops += suite_init_one(&mut *w, &mut rng, id, seed, frames, alloc_all);
+                    nh += 1;
+                }
+            }
+        }
+        _ => {
+            for k in 0..histories {
+                let id = idof(k);
+                // every history has its own derived seed so that it can be regenerated alone
+                let hseed = seed.wrapping_mul(0x2545_f491_4f6c_dd1d).wrapping_add(id);
+                let mut hr = Rng::new(hseed);
+                let n = match suite.as_str() {
+                    "random" => suite_random(&mut *w, &mut hr, id, hseed, ops, "random", &W_RANDOM, 4),
+                    "handoff" => {
+                        let wt = Weights { handoff: 4, ..W_RANDOM };
+                        suite_random(&mut *w, &mut hr, id, hseed, ops, "handoff", &wt, 4)
+                    }
+                    "recover" => {
+                        let wt = Weights { recover: 4, invalid: 1, ..W_RANDOM };
+                        suite_random(&mut *w, &mut hr, id, hseed, ops, "recover", &wt, 4)
+                    }
+                    "pattern" => suite_pattern_one(&mut *w, &mut hr, id, hseed),
+                    "exhaust" => suite_exhaust_one(&mut *w, &mut hr, id, hseed),
+                    "offline" => suite_offline_one(&mut *w, &mut hr, id, hseed, ops),
+                    "args" => suite_args_one(&mut *w, &mut hr, id, hseed),
+                    s => panic!("seqrun: unknown suite {s}"),
+                };
+                nops += n;
+                nh += 1;
+            }
+        }
+    }
+    w.flush().unwrap();
+    let _ = rng.next();
+    eprintln!("seqrun: suite={suite} histories={nh} ops={nops}");
+}
